@@ -24,6 +24,17 @@ Theorem C11_system_delivered_is_everything : forall boot es ls,
   delivered_events boot es ls = es.
 Proof. exact delivered_is_everything. Qed.
 
+(** what a recording plugin sees in the relay's log is that same prefix, and nothing is delivered once on_end_run was called:
+    the theorems below about [pubs_run] (= init, start, the delivered events, then on_end_run) are about runs whose relay ends *)
+Theorem C11_system_log_shows_delivered : forall boot es ls,
+  decode es (R.deliveries (R.log (R.run boot (encode es) ls))) = delivered_events boot es ls.
+Proof. exact log_shows_delivered. Qed.
+
+Theorem C11_system_nothing_delivered_after_end_run : forall boot es ls l,
+  R.main (R.run boot (encode es) ls) = R.PEndRun ->
+  delivered_events boot es (ls ++ [l]) = delivered_events boot es ls.
+Proof. exact nothing_delivered_after_end_run. Qed.
+
 (** C09 + C10: what reaches the main process is always a well-formed stream cut at some point *)
 Theorem C11_system_delivered_wf_prefix : forall r ps sched boot ls,
   wf_prefix r (delivered_events boot (emitted r ps sched) ls) = true.
@@ -102,6 +113,8 @@ Proof. vm_compute. repeat split; try reflexivity; try lia; discriminate. Qed.
 
 Print Assumptions C11_system_delivered_is_prefix.
 Print Assumptions C11_system_delivered_is_everything.
+Print Assumptions C11_system_log_shows_delivered.
+Print Assumptions C11_system_nothing_delivered_after_end_run.
 Print Assumptions C11_system_delivered_wf_prefix.
 Print Assumptions C11_system_delivered_wf_when_complete.
 Print Assumptions C11_system_active_set.
